@@ -18,6 +18,8 @@ use tower::{
 use tracing::warn;
 
 mod connection_manager;
+#[cfg(bmwill_anemo_verif)]
+pub use connection_manager::verif_hooks as active_peers_hooks;
 pub use connection_manager::KnownPeers;
 use connection_manager::{
     ActivePeers, ActivePeersRef, ConnectionManager, ConnectionManagerRequest,
